@@ -1192,6 +1192,13 @@ impl Kademlia {
                                     ?error,
                                     "failed to process message",
                                 );
+
+                                // The substream was consumed by a response that could not be
+                                // processed, no proper response will follow: conclude the peer
+                                // for the query instead of leaving it pending forever.
+                                if let Some(query_id) = query_id {
+                                    self.engine.register_response_failure(query_id, peer);
+                                }
                             }
                         }
                         QueryResult::ReadFailure { reason } => {
